@@ -138,6 +138,12 @@ def shell_loads(rng, d, allow_pressure=True):
     if rng.random() < 0.5:
         loads['Fc'] = float(rng.normal() * 1e4)
         kinds.append('axial')
+        # load asymmetry: a bending moment carried by the axial line load (given directly, or as an eccentricity of the force)
+        k = rng.random()
+        if k < 0.25:
+            loads['MLA'] = float(rng.normal() * 1e3); kinds.append('asymmetry')
+        elif k < 0.5:
+            loads['xiLA'] = float(rng.uniform(-1, 1) * d['r2']); kinds.append('asymmetry')
     return loads, kinds
 
 
@@ -147,7 +153,7 @@ def build_loaded(d, loads):
         cc.add_force(*f, increment=False)
     for f in loads.get('forces_inc', []):
         cc.add_force(*f, increment=True)
-    for k in ('P', 'P_inc', 'Fc', 'T', 'T_inc'):
+    for k in ('P', 'P_inc', 'Fc', 'T', 'T_inc', 'MLA', 'xiLA'):
         if k in loads:
             setattr(cc, k, loads[k])
     return cc
@@ -165,9 +171,14 @@ def virtual_work(cc, d, loads, cfull, inc):
     th = np.arange(nth) * 2 * np.pi / nth
     if 'Fc' in loads:
         Nxx0 = inc * loads['Fc'] / (2 * np.pi * cc.r2 * cc.cosa)
+        # statics of the ring: a line load N0 + N1 cos(theta) has the axial resultant 2 pi r2 cos(alpha) N0 and the moment
+        # pi r2^2 cos(alpha) N1 about the diameter theta = +-90 deg
+        M = loads.get('MLA', loads.get('xiLA', 0.0) * loads['Fc'] if 'xiLA' in loads else 0.0)
+        Nxx1 = inc * M / (np.pi * cc.r2 ** 2 * cc.cosa)
+        line = Nxx0 + Nxx1 * np.cos(th)
         u = np.asarray(cc.uvw(cfull.copy(), xs=np.zeros(nth), ts=th)[0]).ravel()
-        W += Nxx0 * cc.r2 * u.sum() * 2 * np.pi / nth
-        S += abs(Nxx0) * cc.r2 * np.abs(u).sum() * 2 * np.pi / nth
+        W += cc.r2 * float((line * u).sum()) * 2 * np.pi / nth
+        S += cc.r2 * float((np.abs(line) * np.abs(u)).sum()) * 2 * np.pi / nth
     P = loads.get('P', 0.0) + inc * loads.get('P_inc', 0.0)
     if P != 0:
         ng = 6 * max(cc.m1, cc.m2) + 16
